@@ -61,7 +61,7 @@ func RunC02(c *lib.Ctx) {
 		plans[i] = plan{Families[i%len(Families)], n, GenDigests(r, Families[i%len(Families)], n+6), nil, r.Uint64()}
 		plans[i].ops = GenPartition(r, n, r.Intn(5))
 	}
-	parallel(nlogs, 10, func(pi int) {
+	parallel(nlogs, workersN(), func(pi int) {
 		p := plans[pi]
 		id := fmt.Sprintf("log%d", pi)
 		if c.Only != "" && c.Only != id {
